@@ -1,5 +1,5 @@
 /-
-`isoCond` for simple programs, part 2: every binder in the output of ES5 resolution is good (`BOK`), by induction over the tree
+`isoCond`, part 2: every binder in the output of ES5 resolution is good (`BOK`), by induction over the tree
 along the walk facts.
 -/
 import CalmVerif.Proofs.ObfIso
@@ -58,25 +58,55 @@ theorem declOccs_mem (rp : SPath) (a : String) (v : Val) (f : String → List Bi
       | str t => simp [identName] at hn
       | node k as => simp [identsOf, hn]
 
+/-- a labelled jump targets a label in scope, or no label at all -/
+theorem lookupLabel_cases : ∀ (L : List (String × SPath × List Anc)) (n : String),
+    (∃ x ∈ L, x.1 = n ∧ lookupLabel (L.map (fun x => (x.1, x.2.1))) n = { kind := .label, scope := x.2.1, name := n }) ∨
+    lookupLabel (L.map (fun x => (x.1, x.2.1))) n = { kind := .nolabel, scope := [], name := n }
+  | [], n => Or.inr rfl
+  | (y, py, Cy) :: rest, n => by
+    by_cases hyn : y = n
+    · exact Or.inl ⟨(y, py, Cy), List.mem_cons_self .., hyn, by simp [lookupLabel, hyn]⟩
+    · have hne : (y == n) = false := by simpa using hyn
+      rcases lookupLabel_cases rest n with ⟨x, hx, hxn, hlk⟩ | hlk
+      · refine Or.inl ⟨x, List.mem_cons_of_mem _ hx, hxn, ?_⟩
+        simp only [List.map_cons, lookupLabel, hne, Bool.false_eq_true, if_false]
+        exact hlk
+      · refine Or.inr ?_
+        simp only [List.map_cons, lookupLabel, hne, Bool.false_eq_true, if_false]
+        exact hlk
+
 /-! ### the invariant with records -/
 
 section
 variable {fin : Final} (recs : List Rec)
 
+/-- the chain of the scope the Identifier of the label defined at `s` is registered in -/
+def lblChain (fin : Final) (recs : List Rec) (s : SPath) : Option (List Anc) :=
+  (lookupPath fin.identifiers (("identifier", 0) :: s.reverse)).bind
+    (fun sid => (recs.find? (fun r => r.id == sid)).map (·.chain))
+
 structure InvR (ctx : Ctx) (mc : MCtx) : Prop where
   inv : Inv fin ctx mc
   alr : AlR recs (tauFin fin) ctx.env mc.chain
+  lblR : ∀ x ∈ mc.labels, lblChain fin recs x.2.1 = some x.2.2
+
+theorem lblChain_of_facts {mc : MCtx} {p : SPath} {n : String} (h : labelFacts fin recs mc p n = true) :
+    lblChain fin recs p = some mc.chain := by
+  simp only [labelFacts, Bool.and_eq_true] at h
+  have h1 : lookupPath fin.identifiers (("identifier", 0) :: p.reverse) = some mc.sid := of_decide_eq_true h.1.1
+  have h2 : (recs.find? (fun r => r.id == mc.sid)).map (·.chain) = some mc.chain := of_decide_eq_true h.2
+  simp only [lblChain, h1, Option.bind_some, h2]
 
 variable {recs}
 
 theorem invR_flag {ctx : Ctx} {mc : MCtx} (hi : InvR (fin := fin) recs ctx mc) (b : Bool) :
     InvR (fin := fin) recs { ctx with forInItem := b } mc :=
-  ⟨inv_flag hi.inv b, hi.alr⟩
+  ⟨inv_flag hi.inv b, hi.alr, hi.lblR⟩
 
 /-- a declaration site of the current variable environment gives a good binder -/
 theorem declSite_bok {ctx : Ctx} {mc : MCtx} (hi : InvR (fin := fin) recs ctx mc) {q : Path} {n : String}
     (h : declSite fin mc q n = true) :
-    BOK recs (tauFin fin) { kind := ctx.varKind, scope := ctx.varScope, name := n } := by
+    BOK recs (lblChain fin recs) (tauFin fin) { kind := ctx.varKind, scope := ctx.varScope, name := n } := by
   simp only [declSite, Bool.and_eq_true] at h
   exact var_bok hi.alr hi.inv.var h.2
 
@@ -84,9 +114,10 @@ theorem declSite_bok {ctx : Ctx} {mc : MCtx} (hi : InvR (fin := fin) recs ctx mc
 theorem enterFacts_spec {mc : MCtx} {p : SPath} {k : String} {as : List (String × Val)} {inner : MCtx}
     (h : enterFacts fin recs mc p k as = some inner) :
     (isFunctionKind k = true ∧ ∃ R A, recs.find? (fun r => r.node == some p.reverse) = some R ∧ R.chain = A :: mc.chain ∧
-        inner = { sid := R.id, chain := A :: mc.chain } ∧ ((k == "FuncExpr") = true → identAttrOf' as = none)) ∨
+        inner = { sid := R.id, chain := A :: mc.chain, env := funcEnv mc.env p k as, labels := [] }) ∨
     (isFunctionKind k = false ∧ (k == "Catch") = true ∧ catchRec fin recs mc p.reverse as = some inner) ∨
-    (isFunctionKind k = false ∧ (k == "Catch") = false ∧ inner = mc) := by
+    (isFunctionKind k = false ∧ (k == "Catch") = false ∧ inner.chain = mc.chain ∧
+      (inner.labels = mc.labels ∨ ∃ n, inner.labels = (n, p, mc.chain) :: mc.labels ∧ labelFacts fin recs mc p n = true)) := by
   unfold enterFacts at h
   by_cases hf : isFunctionKind k = true
   · left
@@ -107,13 +138,7 @@ theorem enterFacts_spec {mc : MCtx} {p : SPath} {k : String} {as : List (String 
           simp only [funcFacts, Bool.and_eq_true] at hall
           have hC : C = mc.chain := of_decide_eq_true hall.1.1.1.1.1.1.1
           subst hC
-          refine ⟨hf, R, A, rfl, hRC, h.symm, ?_⟩
-          intro hfe
-          have := hall.2
-          simp only [Bool.or_eq_true, bne_iff_ne, ne_eq] at this
-          rcases this with h1 | h1
-          · exact absurd (by simpa using hfe) h1
-          · simpa using h1
+          exact ⟨hf, R, A, rfl, hRC, h.symm⟩
         · rw [if_neg hall] at h; cases h
   · right
     rw [if_neg hf] at h
@@ -123,38 +148,81 @@ theorem enterFacts_spec {mc : MCtx} {p : SPath} {k : String} {as : List (String 
       exact ⟨by simpa using hf, hc, h⟩
     · right
       rw [if_neg hc] at h
-      simp only [Option.some.injEq] at h
-      exact ⟨by simpa using hf, by simpa using hc, h.symm⟩
+      refine ⟨by simpa using hf, by simpa using hc, ?_⟩
+      by_cases hl : (k == "Label") = true
+      · rw [if_pos hl] at h
+        cases hia : identAttrOf' as with
+        | none =>
+          rw [hia] at h
+          simp only [Option.some.injEq] at h
+          subst h
+          exact ⟨rfl, Or.inl rfl⟩
+        | some n =>
+          rw [hia] at h
+          simp only at h
+          by_cases hlf : labelFacts fin recs mc p n = true
+          · rw [if_pos hlf] at h
+            simp only [Option.some.injEq] at h
+            subst h
+            exact ⟨rfl, Or.inr ⟨n, rfl, hlf⟩⟩
+          · rw [if_neg hlf] at h; cases h
+      · rw [if_neg hl] at h
+        simp only [Option.some.injEq] at h
+        subst h
+        exact ⟨rfl, Or.inl rfl⟩
 
 theorem enter_invR (hgood : ∀ R ∈ recs, ChainGood R.chain) {ctx : Ctx} {mc : MCtx}
     (hi : InvR (fin := fin) recs ctx mc) (p : SPath) (k : String)
-    (as : List (String × Val)) (hk2 : (k != "Label") = true) (inner : MCtx)
+    (as : List (String × Val)) (inner : MCtx)
     (h : enterFacts fin recs mc p k as = some inner) : InvR (fin := fin) recs (enter ctx p k as) inner := by
-  obtain ⟨_, hinv, _⟩ := enter_of_facts recs hgood hi.inv p k as hk2 inner h
-  refine ⟨hinv, ?_⟩
-  rcases enterFacts_spec h with ⟨hf, R, A, hR, hRC, rfl, hfe⟩ | ⟨hf, hc, hcr⟩ | ⟨hf, hc, rfl⟩
-  · have henv : (enter ctx p k as).env
-        = { kind := .var, scope := p, names := paramsOf k as ++ hoistElemsOf as } :: ctx.env := by
+  obtain ⟨_, hinv, _⟩ := enter_of_facts recs hgood hi.inv p k as inner h
+  refine ⟨hinv, ?_, ?_⟩
+  rotate_left
+  · rcases enterFacts_spec h with ⟨hf, R, A, hR, hRC, rfl⟩ | ⟨hf, hc, hcr⟩ | ⟨hf, hc, _, hlb⟩
+    · intro x hx; exact absurd hx List.not_mem_nil
+    · obtain ⟨c, hca, _, R, K, hR, hRC, rfl, _, _⟩ := catchRec_inv recs hgood hi.inv p.reverse as inner hcr
+      exact hi.lblR
+    · rcases hlb with hlb | ⟨n, hlb, hlf⟩
+      · rw [hlb]; exact hi.lblR
+      · rw [hlb]
+        intro x hx
+        rcases List.mem_cons.1 hx with rfl | hx
+        · exact lblChain_of_facts recs hlf
+        · exact hi.lblR x hx
+  rcases enterFacts_spec h with ⟨hf, R, A, hR, hRC, rfl⟩ | ⟨hf, hc, hcr⟩ | ⟨hf, hc, hch, _⟩
+  · have henv : (enter ctx p k as).env = funcEnv ctx.env p k as := by
       rw [enter_unfold]
-      simp only [hf, if_true, hoistElems_eq, paramsOf]
+      simp only [hf, if_true, hoistElems_eq, paramsOf, funcEnv, selfNameOf, identAttr_eq]
       by_cases hfe' : (k == "FuncExpr") = true
-      · simp [hfe', identAttr_eq, hfe hfe']
+      · simp [hfe']
       · simp [hfe']
     have hal := hinv.al
     rw [henv] at hal ⊢
-    exact .func p _ ctx.env A mc.chain hal ⟨R, hR, hRC⟩ hi.alr
+    simp only [funcEnv] at hal ⊢
+    obtain ⟨A', C', hAC, _, _, _, _, _, hal'⟩ := al_func_inv hal
+    cases hAC
+    refine .func p _ _ A mc.chain hal ⟨R, hR, hRC⟩ ?_
+    cases hs : selfNameOf k as with
+    | none => simpa using hi.alr
+    | some g =>
+      rw [hs] at hal'
+      simp only [Option.toList_some, List.map_cons, List.map_nil, List.cons_append, List.nil_append] at hal' ⊢
+      exact .self p g ctx.env mc.chain hal' ⟨A, R, hR, hRC⟩ hi.alr
   · obtain ⟨c, hca, _, R, K, hR, hRC, rfl, _, _⟩ := catchRec_inv recs hgood hi.inv p.reverse as inner hcr
+    rw [List.reverse_reverse] at hinv
     have henv : (enter ctx p k as).env = { kind := .catch, scope := p, names := [c] } :: ctx.env := by
       rw [enter_unfold]
       simp only [hf, Bool.false_eq_true, if_false, hc, if_true, identAttr_eq, hca]
     have hal := hinv.al
     rw [henv] at hal ⊢
     exact .catch p c ctx.env K mc.chain hal ⟨R, hR, hRC⟩ hi.alr
-  · have hl : (k == "Label") = false := by simpa using hk2
-    have henter : enter ctx p k as = ctx := by
+  · have henv : (enter ctx p k as).env = ctx.env := by
       rw [enter_unfold]
-      simp [hf, hc, hl]
-    rw [henter]
+      simp only [hf, Bool.false_eq_true, if_false, hc]
+      split
+      · split <;> rfl
+      · rfl
+    rw [henv, hch]
     exact hi.alr
 
 /-- the binders one attribute contributes are good -/
@@ -163,11 +231,12 @@ theorem roleOut_bok {octx ictx : Ctx} {omc imc : MCtx} (hio : InvR (fin := fin) 
     (rF rI rO : List Occ) (fF fI fO : Bool)
     (hparams : role = .params → ictx.varKind = .var ∧ ictx.varScope = p)
     (hcatch : role = .catchParam → ∃ c E', ictx.env = { kind := .catch, scope := p, names := [c] } :: E')
-    (h : roleFacts fin omc imc p a v role fF fI fO = true)
-    (hF : fF = true → ∀ o ∈ rF, ∀ b ∈ o.binders, BOK recs (tauFin fin) b)
-    (hI : fI = true → ∀ o ∈ rI, ∀ b ∈ o.binders, BOK recs (tauFin fin) b)
-    (hO : fO = true → ∀ o ∈ rO, ∀ b ∈ o.binders, BOK recs (tauFin fin) b) :
-    ∀ o ∈ roleOut octx p a v role rF rI rO, ∀ b ∈ o.binders, BOK recs (tauFin fin) b := by
+    (hself : role = .selfName → ∃ A, RecVar recs p (A :: omc.chain))
+    (h : roleFacts fin recs omc imc p a v role fF fI fO = true)
+    (hF : fF = true → ∀ o ∈ rF, ∀ b ∈ o.binders, BOK recs (lblChain fin recs) (tauFin fin) b)
+    (hI : fI = true → ∀ o ∈ rI, ∀ b ∈ o.binders, BOK recs (lblChain fin recs) (tauFin fin) b)
+    (hO : fO = true → ∀ o ∈ rO, ∀ b ∈ o.binders, BOK recs (lblChain fin recs) (tauFin fin) b) :
+    ∀ o ∈ roleOut octx p a v role rF rI rO, ∀ b ∈ o.binders, BOK recs (lblChain fin recs) (tauFin fin) b := by
   intro o ho b hb
   cases role with
   | skip => simp [roleOut] at ho
@@ -181,9 +250,13 @@ theorem roleOut_bok {octx ictx : Ctx} {omc imc : MCtx} (hio : InvR (fin := fin) 
     exact declSite_bok hio (h q hq)
   | selfName =>
     simp only [roleOut] at ho
-    simp only [roleFacts, List.isEmpty_iff] at h
-    obtain ⟨q, hq, _⟩ := declOccs_mem p a v _ o ho
-    rw [h] at hq; cases hq
+    simp only [roleFacts, List.all_eq_true] at h
+    obtain ⟨q, hq, hbs⟩ := declOccs_mem p a v _ o ho
+    rw [hbs] at hb
+    simp only [List.mem_singleton] at hb
+    subst hb
+    obtain ⟨htau, hkey, _⟩ := selfFacts_spec (h q hq)
+    exact .self p q.2 omc.chain (hself rfl) (al_good hio.inv.al) hkey htau
   | params =>
     simp only [roleOut] at ho
     simp only [roleFacts, declSites, List.all_eq_true] at h
@@ -210,18 +283,41 @@ theorem roleOut_bok {octx ictx : Ctx} {omc imc : MCtx} (hio : InvR (fin := fin) 
     have hcq : c = q.2 := hcs.2
     rw [← hcq]
     exact .catch p c u K C hrec hk
-  | labelDecl => simp [roleFacts] at h
-  | labelRef =>
+  | labelDecl =>
     simp only [roleOut] at ho
-    simp only [roleFacts, List.isEmpty_iff] at h
-    obtain ⟨q, hq, _⟩ := declOccs_mem p a v _ o ho
-    rw [h] at hq; cases hq
-  | varName assigned =>
-    simp only [roleOut] at ho
-    simp only [roleFacts, declSites, List.all_eq_true] at h
+    simp only [roleFacts, List.all_eq_true, Bool.and_eq_true] at h
     obtain ⟨q, hq, hbs⟩ := declOccs_mem p a v _ o ho
     rw [hbs] at hb
-    have hd := declSite_bok hio (h q hq)
+    simp only [List.mem_singleton] at hb
+    subst hb
+    have hlf := (h q hq).2
+    have htie := lblChain_of_facts recs hlf
+    simp only [labelFacts, Bool.and_eq_true] at hlf
+    have hreg : lookupPath fin.identifiers (("identifier", 0) :: p.reverse) = some omc.sid := of_decide_eq_true hlf.1.1
+    refine .label p q.2 omc.chain htie (al_good hio.inv.al) (by simpa using hlf.1.2) ?_
+    intro m
+    have e : tauN (tauFin fin) .label p m = rhoFin fin (("identifier", 0) :: p.reverse) m := rfl
+    rw [e, rho_at hio.inv hreg]
+  | labelRef =>
+    simp only [roleOut] at ho
+    simp only [roleFacts, List.all_eq_true, Bool.and_eq_true] at h
+    obtain ⟨q, hq, hbs⟩ := declOccs_mem p a v _ o ho
+    rw [hbs] at hb
+    simp only [List.mem_singleton] at hb
+    subst hb
+    rcases lookupLabel_cases omc.labels q.2 with ⟨x, hx, hxn, hlk⟩ | hlk
+    · rw [← hio.inv.labels, hlk]
+      obtain ⟨htau, hkey, hg⟩ := hio.inv.lblOK x hx
+      rw [← hxn]
+      exact .label x.2.1 x.1 x.2.2 (hio.lblR x hx) hg hkey htau
+    · rw [← hio.inv.labels, hlk]
+      exact .nolabel q.2
+  | varName assigned =>
+    simp only [roleOut] at ho
+    simp only [roleFacts, declSites, List.all_eq_true, Bool.and_eq_true] at h
+    obtain ⟨q, hq, hbs⟩ := declOccs_mem p a v _ o ho
+    rw [hbs] at hb
+    have hd := declSite_bok hio (h.1 q hq)
     split at hb
     · simp only [List.mem_cons, List.mem_singleton, List.not_mem_nil, or_false] at hb
       rcases hb with rfl | rfl
